@@ -374,3 +374,75 @@ def fmtindent(repo):
     res.samples = [f"indenters: {sorted(ind)}"]
     res.analysed = [G.FORMAT_EMB, G.MODULE_IR]
     return res
+
+
+# ---------------------------------------------------------------------------------------------------------
+def fmtwidth(repo):
+    """R-FMTWIDTH (C11): column widths are computed from the token texts the per-production formatters receive.  A token
+    class whose pattern runs to the end of the line (`... .*`) can end in blanks, which are removed when the row is
+    rendered; if they are still present when widths are measured, a second pass measures something narrower and the
+    layout moves (formatting is not idempotent).  The function that hands token text to the formatters must strip
+    those classes."""
+    import re._parser as sre
+    res = RuleResult("R-FMTWIDTH")
+    lits, regs = G.tokenizer_tables(repo)
+    eol_classes = set()
+    for pat, sym, _ in regs:
+        if not sym:
+            continue
+        try:
+            parsed = list(sre.parse(pat))
+        except Exception:
+            continue
+        if parsed:
+            op, av = parsed[-1]
+            if str(op) in ("MAX_REPEAT", "MIN_REPEAT") and av[1] > 1000 and any(str(o) == "ANY" for o, _ in av[2]):
+                eol_classes.add(sym)
+    g = G.ir_grammar(repo)
+    lhs = {l for l, _ in g["productions"]}
+    terminals = {s_ for _, rhs in g["productions"] for s_ in rhs if s_ not in lhs}
+    eol_classes &= terminals  # classes that cannot occur in a parse tree (BadDocumentation) never reach the formatter
+    if len(eol_classes) < 2:
+        raise AnalysisError(f"tokenizer: token classes that run to the end of the line: {sorted(eol_classes)}")
+    m = repo.mod(G.FORMAT_EMB)
+    call = None
+    for f in m.top_funcs():
+        for n in walk_no_nested_funcs(f.node):
+            if isinstance(n, ast.Call) and (call_name(n) or "").endswith("transform_parse_tree") and len(n.args) >= 2:
+                call = (f, n)
+    if call is None:
+        raise AnalysisError("format_emb: transform_parse_tree call not found")
+    f, n = call
+    tf = n.args[1]
+    res.instances += 1
+    stripped = set()
+    body = None
+    if isinstance(tf, ast.Lambda):
+        body = tf.body
+        nodes = [tf.body]
+    elif isinstance(tf, ast.Name):
+        inner = [x for x in ast.walk(f.node) if isinstance(x, ast.FunctionDef) and x.name == tf.id]
+        nodes = inner
+    else:
+        nodes = []
+    for root in nodes:
+        for x in ast.walk(root):
+            if isinstance(x, ast.Call) and isinstance(x.func, ast.Attribute) and x.func.attr in ("rstrip", "strip") \
+                    and ast.unparse(x.func.value).endswith(".text"):
+                # which classes does it apply to?  an enclosing `if <tok>.symbol in (...)` or unconditional
+                cond = None
+                for y in ast.walk(root):
+                    if isinstance(y, ast.If) and any(x is z for z in ast.walk(y)):
+                        cond = y.test
+                if cond is None:
+                    stripped |= eol_classes
+                else:
+                    stripped |= {c.value for c in ast.walk(cond) if isinstance(c, ast.Constant) and isinstance(c.value, str)}
+    missing = sorted(eol_classes - stripped)
+    if missing:
+        res.add(f"{G.FORMAT_EMB}|{f.name}|token-text|{','.join(missing)}", f"{f.name} hands the text of {missing} tokens to the formatters with "
+                "their trailing blanks: widths of the doc/comment columns are measured with blanks that are later removed, so "
+                "formatting the output again moves the neighbouring rows' comments (not idempotent)", G.FORMAT_EMB, n.lineno, f.name)
+    res.samples = [f"end-of-line token classes {sorted(eol_classes)} are stripped before formatting"]
+    res.analysed = [G.FORMAT_EMB, G.TOKENIZER]
+    return res
